@@ -198,7 +198,7 @@ def check(ctx, replay=None):
     viol, runs, goals, samples, cases = 0, 0, [], [], []
     def violate(key, obj):
         nonlocal viol
-        if viol < 4:
+        if len(ctx.violations) < 4:
             viol += 1
             ctx.violation(key, obj, True)
     # fixed locality pairs
@@ -301,7 +301,7 @@ def check(ctx, replay=None):
         if si == 0:
             samples.append({"base_src": base_src[:1200], "permuted": variants["perm0"][:600]})
     fails = run_shards(PROP, HEADER, goals) if goals else []
-    if fails and viol == 0:
+    if fails and not ctx.violations:
         ctx.violation("corr:collect", {"broken": "correspondence goal " + goals[fails[0]][:400] + " : ast::File does not collect what Collect/Model.v derives"}, False)
     return batch_evidence(
         ctx, PROP, phase, goals, fails, runs, max(2, nsets * (nperm + 3)),
